@@ -29,8 +29,8 @@ m = dict(
                source_commits=[], add_only=True),
     engines=[dict(name="coq-model+correspondence", path="/verif/coq + /verif/harness", serves_properties=[c["property_id"] for c in checks],
                   kind_free_text="Coq 8.16.1 development (models, proofs, property theorems with Print Assumptions) + Python correspondence harness evaluating the models with vm_compute on the inputs the implementation was run on, + direct property oracles for the failing-input search"),
-             dict(name="source-translator", path="/verif/harness/translate.py + /verif/coq/GenLib.v + /verif/coq/gen/ScoringGenProof.v", serves_properties=["C10", "C11", "C13"],
-                  kind_free_text="fail-closed Python-ast translator: the scoring rules' score / winners / break_tie definitions are regenerated as Gallina from /repo's current source on every run and proved equal to the hand-written model (10 theorems counted as proof obligations of C10, C11, C13)")],
+             dict(name="source-translator", path="/verif/harness/translate.py + /verif/coq/Gen*.v + /verif/coq/gen/*Proof.v", serves_properties=["C10", "C11", "C12", "C13", "C14", "C15"],
+                  kind_free_text="fail-closed Python-ast translator: the scoring rules' score / winners / break_tie definitions, Copeland's score, the STV loop and the memoising elicitor are regenerated as Gallina from /repo's current source on every run and proved equal to the hand-written models (coq/gen/*Proof.v, counted as proof obligations of the properties they serve)")],
     checks=checks,
     notes=D.NOTES,
     not_applicable=na,
